@@ -7,13 +7,20 @@
   every mutating command and get-and-touch, read lock per key for get), that both ports use ONE
   lock set, and that a key always maps to the same stripe; (3) each connection holds at most one
   lock at a time and its commands are whole critical sections (C12); (4) backend requests on
-  different keys commute (C14).  From these the per-key serial order — and with C01's sequential
-  theorem linearizability — follows by the standard reduction argument, which is NOT formalised
-  here; the correspondence explores every admitted interleaving of small programs and checks
-  linearizability of each history.
+  different keys commute (C14); (5) THE REDUCTION, for exclusive locks (every mutating command
+  and get-and-touch always; gets too in single-reader mode): any number of connections, each
+  running a single-key command's orchestrator program between Lock() and Unlock() of its key's
+  stripe, scheduled in ANY way the lock table admits at the granularity of single backend
+  requests — every finished command returned and emitted what it does when the commands run whole,
+  one after another, in the order of their lock acquisitions (`C03_serializable`), and that
+  sequential run is answered as the single map answers it (C01) — `C03_linearizable`.
+  Not covered by (5): gets holding a shared read lock in multi-reader mode (two gets of one key may
+  then interleave their L1 back-fills); the correspondence explores every admitted interleaving
+  of small programs in both modes and checks linearizability of each history.
 -/
 import Rend.Props.C12
 import Rend.Props.C14
+import Rend.Proofs.KeyLocal
 
 namespace Rend.Props.C03
 open Rend
@@ -112,6 +119,118 @@ theorem C03_swap (now1 now2 : Nat) (s : Store) (r1 r2 : Req) (h : r1.key ≠ r2.
     (Mc.exec now1 s r1).2 = (Mc.exec now1 (Mc.exec now2 s r2).1 r1).2 ∧
     (Mc.exec now2 (Mc.exec now1 s r1).1 r2).2 = (Mc.exec now2 s r2).2 :=
   C14.C14_requests_commute now1 now2 s r1 r2 h
+
+/-! ### the reduction -/
+
+open Conc in
+/-- Command `i`: arrives on port `ports i`, is `cmds i`, works on key `keys i`; between `Lock()`
+    and `Unlock()` of the key's stripe it runs the port's orchestrator over the pass-through
+    handlers. -/
+def threads (bits : Nat) (ports : Nat → Port) (cmds : Nat → Cmd) (keys : Nat → Bytes) : Nat → Conc.Thread (HRes Unit) :=
+  fun i => { key := keys i, stripe := stripeOf bits (keys i), body := portStep (ports i) (cmds i) }
+
+/-- The commands as a sequential history, in a given order. -/
+def actsOf (ports : Nat → Port) (cmds : Nat → Cmd) (order : List Nat) : List Act :=
+  order.map (fun i => Act.cmd (ports i) (cmds i))
+
+theorem seqObs_eq_runActs (now bits : Nat) (ports : Nat → Port) (cmds : Nat → Cmd) (keys : Nat → Bytes) :
+    ∀ (order : List Nat) (w : World),
+      Conc.seqObs now (threads bits ports cmds keys) w order = runActs now w [] (actsOf ports cmds order) ∧
+      Conc.seqEnd now (threads bits ports cmds keys) w order = (endActs now w [] (actsOf ports cmds order)).2
+  | [], w => ⟨rfl, rfl⟩
+  | i :: rest, w => by
+    obtain ⟨a, b⟩ := seqObs_eq_runActs now bits ports cmds keys rest ((portStep (ports i) (cmds i)).eval now w []).2.2.1
+    simp only [Conc.seqObs, Conc.seqEnd, actsOf, List.map_cons, runActs, endActs, threads]
+    rw [Conc.eval_nil_tk]
+    exact ⟨by rw [a]; rfl, by rw [b]; rfl⟩
+
+/-- **Serializability.**  Any number of connections, each with a single-key command, under
+    exclusive stripe locks, scheduled in any admitted way, ending with nobody inside a critical
+    section: both tiers hold what the sequential run in lock-acquisition order leaves, and the
+    commands, listed in that order, returned and emitted exactly what that sequential run does. -/
+theorem C03_serializable (now bits : Nat) (ports : Nat → Port) (cmds : Nat → Cmd) (keys : Nat → Bytes)
+    (hk : ∀ i, cmdKey (cmds i) = some (keys i)) (w : World) (sched : List Conc.Step) (c' : Conc.Conf (HRes Unit))
+    (hex : Conc.Exec now (threads bits ports cmds keys) (Conc.Conf.init w) sched c')
+    (hquiet : ∀ i p evs, c'.ts i ≠ .running p evs) :
+    c'.w = (endActs now w [] (actsOf ports cmds (Conc.acqOrder sched))).2 ∧
+    (Conc.acqOrder sched).map c'.ts =
+      (runActs now w [] (actsOf ports cmds (Conc.acqOrder sched))).map (fun o => Conc.TState.done o.1 o.2) := by
+  have hbody : ∀ i, AllReqs (Conc.KeyLocal ((threads bits ports cmds keys) i).key) ((threads bits ports cmds keys) i).body :=
+    fun i => portStep_keyLocal (ports i) (cmds i) (keys i) (hk i)
+  have hkey : ∀ i j, ((threads bits ports cmds keys) i).key = ((threads bits ports cmds keys) j).key →
+      ((threads bits ports cmds keys) i).stripe = ((threads bits ports cmds keys) j).stripe := by
+    intro i j h
+    simp only [threads] at h ⊢
+    rw [h]
+  obtain ⟨a, b⟩ := Conc.serializable_obs now _ hbody hkey w sched c' hex hquiet
+  obtain ⟨e1, e2⟩ := seqObs_eq_runActs now bits ports cmds keys (Conc.acqOrder sched) w
+  rw [e2] at a
+  rw [e1] at b
+  exact ⟨a, b⟩
+
+/-- **Linearizability against the single map.**  With the cache invariant at the start and
+    commands the two-tier orchestrators accept: there is a sequential history — the commands in
+    lock-acquisition order — whose observations the single-map specification agrees with one by
+    one, which are exactly what the concurrent commands returned and emitted, and at the end L2 is
+    the specification's map and the cache invariant holds again. -/
+theorem C03_linearizable (now bits : Nat) (ports : Nat → Port) (cmds : Nat → Cmd) (keys : Nat → Bytes)
+    (hk : ∀ i, cmdKey (cmds i) = some (keys i)) (htt : ∀ i, TwoTier (cmds i)) (w : World) (hinv : CacheInv now w)
+    (sched : List Conc.Step) (c' : Conc.Conf (HRes Unit))
+    (hex : Conc.Exec now (threads bits ports cmds keys) (Conc.Conf.init w) sched c')
+    (hquiet : ∀ i p evs, c'.ts i ≠ .running p evs) :
+    ∃ obs : List (HRes Unit × List OEv),
+      (Conc.acqOrder sched).map c'.ts = obs.map (fun o => Conc.TState.done o.1 o.2) ∧
+      AllAgree obs (specActs now w.l2 (actsOf ports cmds (Conc.acqOrder sched))) ∧
+      c'.w.l2 = specEnd now w.l2 (actsOf ports cmds (Conc.acqOrder sched)) ∧
+      CacheInv now c'.w := by
+  obtain ⟨a, b⟩ := C03_serializable now bits ports cmds keys hk w sched c' hex hquiet
+  have hacts : ActsTwoTier (actsOf ports cmds (Conc.acqOrder sched)) := by
+    intro p c hmem
+    simp only [actsOf, List.mem_map] at hmem
+    obtain ⟨i, _, hi⟩ := hmem
+    injection hi with h1 h2
+    subst h2
+    exact htt i
+  obtain ⟨r1, r2, r3⟩ := history_refines (actsOf ports cmds (Conc.acqOrder sched)) now w [] hacts hinv
+  have hnow : ∀ (acts : List Act) (n : Nat) (w0 : World), (∀ a ∈ acts, ∃ p c, a = Act.cmd p c) →
+      (endActs n w0 [] acts).1 = n := by
+    intro acts
+    induction acts with
+    | nil => intro n w0 _; rfl
+    | cons a rest ih =>
+      intro n w0 h
+      obtain ⟨p, c, rfl⟩ := h a (List.mem_cons_self ..)
+      simp only [endActs]
+      rw [Conc.eval_nil_tk]
+      exact ih n _ (fun x hx => h x (List.mem_cons_of_mem _ hx))
+  have hn := hnow (actsOf ports cmds (Conc.acqOrder sched)) now w (by
+    intro x hx
+    simp only [actsOf, List.mem_map] at hx
+    obtain ⟨i, _, hi⟩ := hx
+    exact ⟨_, _, hi.symm⟩)
+  rw [hn] at r3
+  refine ⟨_, b, r1, ?_, ?_⟩
+  · rw [a]; exact r2
+  · rw [a]; exact r3
+
+/-- Non-vacuity of the reduction: two connections, `set a` and `delete a` on the main port; the
+    schedule in which the second one has to wait is admitted, and one in which it enters the
+    first one's critical section is not. -/
+example : ∃ c', Conc.Exec 100 (threads 3 (fun _ => .main)
+      (fun i => if i = 0 then .store .set { key := [97], data := [1] } else .delete { key := [97] }) (fun _ => [97]))
+      (Conc.Conf.init {}) [.acq 0] c' :=
+  ⟨_, Conc.Exec.cons _ _ _ _ _ (Conc.Step1.acq _ 0 rfl (fun j p evs h => by simp [Conc.Conf.init] at h)) (Conc.Exec.nil _)⟩
+
+example : ∀ c1 c', Conc.Step1 100 (threads 3 (fun _ => .main)
+      (fun i => if i = 0 then .store .set { key := [97], data := [1] } else .delete { key := [97] }) (fun _ => [97]))
+      (Conc.Conf.init {}) (.acq 0) c1 → ¬ Conc.Step1 100 (threads 3 (fun _ => .main)
+      (fun i => if i = 0 then .store .set { key := [97], data := [1] } else .delete { key := [97] }) (fun _ => [97]))
+      c1 (.acq 1) c' := by
+  intro c1 c' h1 h2
+  cases h1 with
+  | acq _ _ _ =>
+    cases h2 with
+    | acq _ _ hfree => exact hfree 0 _ _ (Conc.set_self _ _ _) rfl
 
 /-- Non-vacuity: two writers on one stripe are not admitted, two readers are (multi-reader mode only). -/
 example : ¬ Excl false [(1, 3, false), (2, 3, false)] := by
